@@ -708,7 +708,7 @@ func (t *Trace) runModel(drv *lib.Driver, cfgLine string, res *lib.Result, ctx a
 			if len(hist) > 40 {
 				hist = hist[len(hist)-40:]
 			}
-			res.Mismatch(lib.Mismatch{Sig: "model-differs:" + reDigits.ReplaceAllString(strings.SplitN(s.what, " of ", 2)[0], "N"), Input: map[string]any{"case": ctx, "step": s.what, "ops": hist},
+			res.Mismatch(lib.Mismatch{Sig: "model-differs:" + reDigits.ReplaceAllString(strings.SplitN(s.what, " of ", 2)[0], "#N"), Input: map[string]any{"case": ctx, "step": s.what, "ops": hist},
 				Model: short(got), Impl: short(s.expect)})
 			return compared, answers, nil // later steps depend on this one
 		}
@@ -716,6 +716,6 @@ func (t *Trace) runModel(drv *lib.Driver, cfgLine string, res *lib.Result, ctx a
 	return compared, answers, nil
 }
 
-var reDigits = regexp.MustCompile(`[0-9]+`)
+var reDigits = regexp.MustCompile(`#[0-9]+`)
 
 var _ = hex.EncodeToString
